@@ -226,7 +226,7 @@ def register(reg):
                  params={"value": "Optional[str]"}, returns="Tuple[str, Dict[str, str]]",
                  note="value -> (main value, options); total (C07 bounded tier)")
     reg.contract(
-        "werkzeug/sansio/multipart.py:MultipartDecoder.next_event", prop=P, self_model=MD,
+        "werkzeug/sansio/multipart.py:MultipartDecoder.next_event", prop="C01,C10", self_model=MD,
         requires=["I_dec(self)"],
         ghost_after={"match = self.preamble_re.search(self.buffer, self._search_position)":
                      ["if match is not None:\n    self.g_g1 = match.group(1)"]},
@@ -260,6 +260,12 @@ def register(reg):
             "implies((old(self.state) == 'State.DATA' or old(self.state) == 'State.DATA_START') and self.state != 'State.DATA', "
             "        old(self.buffer)[(lb_len(old(self.buffer)) if old(self.state) == 'State.DATA_START' else 0):].startswith(ev_data(result)))",
             "self.boundary == old(self.boundary) and self.complete == old(self.complete)",
+            # C10: a part is only ever announced while the configured number of parts is not exceeded; every
+            # announced part is counted exactly once
+            "implies(ev_kind(result) in ('Field', 'File'), self._parts_decoded == old(self._parts_decoded) + 1 and "
+            "        (self.max_parts is None or self._parts_decoded <= self.max_parts))",
+            "implies(ev_kind(result) not in ('Field', 'File'), self._parts_decoded == old(self._parts_decoded))",
+            "self.max_parts == old(self.max_parts)",
             # which event announces which step; the end of a part is always announced (Data with more_data False)
             "implies(old(self.state) == 'State.PREAMBLE', (ev_kind(result) == 'Preamble') == (self.state != 'State.PREAMBLE') and "
             "        (ev_kind(result) == 'Preamble' or ev_kind(result) == 'NeedData'))",
